@@ -287,6 +287,10 @@ func enumerate(shard, nshards int, yield func(Case)) {
 			{"parameters": []any{nil}}, {"parameters": []any{M{"$ref": "#/components/parameters/P"}}}, {"parameters": []any{M{"$ref": "#/components/parameters/Nope"}}}, {"parameters": nil},
 			{"parameters": M{}}, {"get": nil}, {"get": M{"responses": nil}}, {"get": M{"responses": M{"200": nil}}}, {"get": M{"responses": M{"200": M{"$ref": "#/components/responses/R"}}}},
 			{"get": M{"parameters": []any{nil}, "responses": M{}}}, {"get": M{"requestBody": nil, "responses": M{"200": M{"description": "d"}}}}, {"servers": []any{nil}}, {"servers": []any{M{"url": "/x", "variables": M{"v": nil}}}},
+			{"parameters": []any{M{"name": "q", "in": "query", "schema": M{"oneOf": []any{nil}}}}}, {"parameters": []any{M{"name": "q", "in": "query", "schema": M{"type": "array", "items": nil}}}},
+			{"get": M{"responses": M{"200": M{"description": "d", "content": M{"application/json": M{"schema": M{"type": "object", "properties": M{"p": nil}, "allOf": []any{nil}, "not": nil}}}}}}},
+			{"get": M{"responses": M{"200": M{"description": "d", "headers": M{"H": nil}, "links": M{"L": nil}}}}}, {"get": M{"requestBody": M{"content": M{"application/json": nil}}, "responses": M{"200": M{"description": "d"}}}},
+			{"get": M{"responses": M{"200": M{"description": "d", "content": M{"application/json": M{"examples": M{"e": nil}, "encoding": M{"x": nil}}}}}}},
 			{"summary": "s"}, {"get": M{"callbacks": M{"cb": nil}, "responses": M{"200": M{"description": "d"}}}}, {"get": M{"callbacks": M{"cb": M{"{$url}": M{"$ref": ptr, "parameters": []any{nil}}}}, "responses": M{"200": M{"description": "d"}}}},
 		}
 		for _, sib := range siblings {
